@@ -386,7 +386,9 @@ def _judge_grid(space, sel, obs, label):
                 else:
                     new.polygons = newpolys
                 ems_polys = obs.get('polygons')
-                if isinstance(ems_polys, dict):
+                if isinstance(ems_polys, dict) and ems_polys['error'].get('injected'):
+                    pass   # the injected fault of this very op landed in the polygon computation: an error, not a wrong answer
+                elif isinstance(ems_polys, dict):
                     c09.append(('polygons-raise', f'{label}: result.ems.polygons raises {ems_polys["error"]["exc"]}: {ems_polys["error"]["msg"]}',
                                 ems_polys['error'].get('frame')))
                 elif ems_polys is not None and ems_polys != built:
@@ -499,7 +501,9 @@ def _judge_mesh(space, sel, obs, label):
                 c09.append(('selected-polygon-changed', f'{label}: face {k} of the result has polygon {built[k] if k < len(built) else None}, the selected face had {want[k] if k < len(want) else None}'))
             new.polygons = want
             ems_polys = obs.get('polygons')
-            if isinstance(ems_polys, dict):
+            if isinstance(ems_polys, dict) and ems_polys['error'].get('injected'):
+                pass   # the injected fault of this very op landed in the polygon computation: an error, not a wrong answer
+            elif isinstance(ems_polys, dict):
                 c09.append(('polygons-raise', f'{label}: result.ems.polygons raises {ems_polys["error"]["exc"]}: {ems_polys["error"]["msg"]}',
                             ems_polys['error'].get('frame')))
             elif ems_polys is not None and ems_polys != built:
